@@ -173,6 +173,10 @@ def replay_c18(case):
     params, ctx, nt = case['params'], case['ctx'], case['nt']
     nl = case['sig']['nl']
     exp = expected_info(case['expect'])
+    # the values given to function attributes include None and other false
+    # objects: every attribute becomes a tagged value, whatever its value
+    TV = {'v1': None, 'v2': 0, 'v3': ''}
+    case = dict(case, tags=[(k, TV.get(v, v)) for k, v in case['tags']])
     exp_tags = {k: v for k, v in case['tags']}
     src = render_def('m', params, nl)
     tagsrc = ''.join('m.%s = %r\n' % (k, v) for k, v in case['tags'])
@@ -345,7 +349,7 @@ def expected_outcome(e):
 def guard_binds(attr, shapes, with_self, src):
     """Python's own binding rule against the spec's Binds."""
     try:
-        sig = inspect.signature(attr)
+        sig = inspect.signature(attr, follow_wrapped=False)
     except (ValueError, TypeError) as e:
         guard_failures.append({'what': 'not introspectable', 'src': src,
                                'err': str(e)})
@@ -405,6 +409,15 @@ def replay_pair(case):
                'ob = C()\n')
     exec(src, ns)
     I, C, ob = ns['I'], ns['C'], ns['ob']
+    if PAIR_SERIAL[0] % 4 >= 2:
+        # the implementation is a DECORATED function: it carries, as
+        # functools.wraps leaves it, a reference to the function it wraps,
+        # whose signature is another one.  What counts is the callable the
+        # callers get.
+        def wrapped_original(self, w1, w2, w3, w4, w5, w6, w7):
+            pass
+        f0 = C.__dict__['m'] if kind != 'func' else ns['m']
+        f0.__wrapped__ = wrapped_original
     where = {'interface': isrc.strip().split('\n')[0],
              'implementation': msrc.strip().split('\n')[0],
              'kind': case['kind'], 'tentative': tent,
@@ -432,6 +445,16 @@ def replay_pair(case):
     exp = expected_outcome(case['expect'])
     if got != exp:
         mismatch(fut.__name__, exp, got, where)
+    # the caller post-processes the interface method's report; verifying again
+    # must conclude the same
+    rep = I['m'].getSignatureInfo()
+    for k in list(rep):
+        del rep[k]
+    evaluations += 1
+    got = run_verify(fut, I, cand, tent)
+    if got != exp:
+        mismatch(fut.__name__ + ' (again, after the caller emptied the '
+                 'report of the interface method)', exp, got, where)
     twin = case.get('twin')
     if twin:
         # the same function object under the other binding level
